@@ -21,19 +21,24 @@ MANIFEST = {
     "C10": dict(
         engine="UtxoScan",
         text="Exhaustive TLC exploration of specs/UtxoScan (pq, nextBatch, the running batch with the reporter's "
-             "requests / initialTxns, chain with creations, spends, double spends, create-and-spend in one block, "
-             "best height growing during the scan, per-request answer bags) over every interleaving of Enqueue "
-             "(same outpoint twice, two outputs of one tx, out-of-range index, start below/at/above the running "
-             "scan and above the tip), block arrival, fetch failure at every gate and Stop relative to the running "
-             "batch; EVERY transition is replayed on the real UtxoScanner (all four config callbacks and the "
-             "condition-variable lock are gates, real blocks / GCS filters built with btcd) and AnswerIsFate / "
-             "AnsweredAtMostOnce / NoCallerLeftWaiting of UtxoScanProps.tla are evaluated by TLC on what the callers got.",
-        note="Bounded: <=5 heights, <=3 requests, <=2 failing gate answers per history, chains from a fixed catalogue "
-             "plus seeded random ones. Gate granularity: orderings inside the code between two environment calls are "
-             "represented by the equivalent ordering at a gate (argued in notes/utxoscan.md). Callers are modelled by "
-             "the driver reading Result() after every step; cancel channels of individual callers are not exercised. "
-             "Reorgs during a scan are not modelled (GetBlockHash is by height).",
-        design="4 C10", technique="TLA+ spec + TLC exhaustive + gated spec-to-code replay of every transition + TLC-judged observed traces"),
+             "requests / initialTxns, chains with creations, spends, later and same-block double spends, "
+             "create-and-spend in one block, best height growing during the scan, per-request answer bags) over every "
+             "interleaving of Enqueue (same outpoint twice, two outputs of one tx, out-of-range index, start below / "
+             "at / above the running scan and above the tip), block arrival, a failing answer at every environment "
+             "call and Stop relative to the running batch. EVERY transition is replayed on the real UtxoScanner (the "
+             "four config callbacks and the lock under its condition variable are gates; real btcd blocks and GCS "
+             "filters) and, in the other direction, thousands of free-running executions of the real scanner are "
+             "recorded at its critical sections, linearised and checked to be paths of the TLC state graph. "
+             "AnswerIsFate / AnsweredAtMostOnce / NoCallerLeftWaiting(+AboveTip) of UtxoScanProps.tla are evaluated "
+             "by TLC on what the callers of the real scanner got, after every step.",
+        note="Bounded: 3-5 heights, <=3 requests, <=2 failing environment answers per history, chains from a fixed "
+             "catalogue plus one seeded random chain. One model action = one environment answer plus the code up to "
+             "the next environment call (equivalence argued in notes/utxoscan.md and checked by the free-running "
+             "executions). Callers are read through Result() after every step; caller-side cancel channels, reorgs "
+             "during a scan and filter false negatives are not modelled. Open finding KF-UX-3 (start height above "
+             "the tip: busy loop, caller waits) is reported as KNOWN-FINDING.",
+        design="4 C10", technique="TLA+ spec + TLC exhaustive + gated spec-to-code replay of every transition + "
+                                  "free-running code-to-spec trace validation + TLC-judged observed traces"),
 }
 
 PROPS = {"C10": ["AnswerIsFate", "AnsweredAtMostOnce", "NoCallerLeftWaiting", "NoCallerLeftWaitingAboveTip"]}
